@@ -196,6 +196,25 @@ impl IndexHunkIter {
         }
     }
 
+    /// Return the next hunk, or an error if it cannot be read.
+    ///
+    /// Unlike [IndexHunkIter::next] this does not skip unreadable hunks or stop quietly
+    /// at a missing one, so it can be used where an incomplete view of the index would be
+    /// dangerous, such as when deciding which blocks are unreferenced.
+    pub async fn try_next(&mut self) -> Result<Option<Vec<IndexEntry>>> {
+        debug_assert!(
+            self.after.is_none(),
+            "try_next does not support advance_to_after"
+        );
+        let Some(hunk_number) = self.hunks.next() else {
+            return Ok(None);
+        };
+        match self.index.read_hunk(hunk_number).await? {
+            Some(entries) => Ok(Some(entries)),
+            None => Err(Error::IndexHunkMissing { hunk_number }),
+        }
+    }
+
     /// Collect the contents of the iterator into a vector of hunks, each of which
     /// contains vector of entries.
     ///
